@@ -151,6 +151,7 @@ struct Exchange {
 	Req req; std::string tag; bool well_formed = true; bool is_writer = false; std::string script; uint64_t salt = 0; bool accept_gzip = false;
 	std::string wire;                 // bytes to send
 	std::vector<int> seg;             // client write segmentation
+	std::vector<int> seg_delay_ms;    // pause after the i-th segment (a slow peer)
 	bool http11 = false, keepalive = false; FcgiLayout fl;
 	// faults on this exchange
 	int close_after = -1;             // client closes (both directions) after sending this many bytes of this exchange
@@ -173,10 +174,11 @@ struct Client : simk::Actor {
 	size_t sent = 0, segi = 0; std::string in; bool eof_seen = false; bool faulted = false;
 	size_t cap_to_server = 4096, cap_to_client = 4096; std::vector<int> read_pace; size_t rpi = 0;
 	int64_t deadline = -1; int64_t timeout_us = 120LL*1000000; int64_t bad_wait_us = 40LL*1000000; int start_delay_us = 0; int64_t t_created = 0;
-	simk::Rng rng;
+	simk::Rng rng; int n_pauses = 0;
 	const char *name() override { return "client"; }
 	Exchange &E(){ return ex[cur]; }
-	bool want_send(){ if(!connected || finished || faulted) return false; Exchange &e = E(); if(e.stall && e.close_after >= 0 && (int)sent >= e.close_after) return false; return sent < e.wire.size() && c->send_room() > 0; }
+	int64_t hold_until = -1;   // slow peer: nothing is sent before this time
+	bool want_send(){ if(!connected || finished || faulted) return false; if(hold_until > simk::now_us()) return false; Exchange &e = E(); if(e.stall && e.close_after >= 0 && (int)sent >= e.close_after) return false; return sent < e.wire.size() && c->send_room() > 0; }
 	bool want_recv(){ return connected && !finished && (c->avail() > 0 || (c->eof() && !eof_seen)); }
 	bool enabled() override {
 		if(finished) return false;
@@ -185,7 +187,7 @@ struct Client : simk::Actor {
 		if(!E().well_formed && E().wire.empty() && E().t_sent < 0) return true;
 		return want_send() || want_recv();
 	}
-	int64_t next_time() override { if(finished) return -1; if(!connected) return simk::is_listening(addr) ? t_created + start_delay_us : -1; return deadline; }
+	int64_t next_time() override { if(finished) return -1; if(!connected) return simk::is_listening(addr) ? t_created + start_delay_us : -1; if(hold_until > simk::now_us() && (deadline < 0 || hold_until < deadline)) return hold_until; return deadline; }
 	void finish_all(bool early){ for(size_t i=cur;i<ex.size();i++) if(!ex[i].done){ ex[i].done = true; ex[i].conn_closed_early = early; ex[i].t_done = simk::now_us(); } finished = true; if(c) c->close(); }
 	void start_exchange(){ sent = 0; segi = 0; deadline = simk::now_us() + timeout_us; E().t_start = simk::now_us(); }
 	void complete_current(){ Exchange &e = E(); e.done = true; e.t_done = simk::now_us(); cur++; if(cur >= ex.size()){ finished = true; c->close(); } else start_exchange(); }
@@ -237,6 +239,7 @@ struct Client : simk::Actor {
 			size_t k = std::min(std::min(room,want),e.wire.size()-sent);
 			int lim = e.close_after >= 0 ? e.close_after : e.halfclose_after >= 0 ? e.halfclose_after : e.reset_after; if(lim >= 0 && sent + k > (size_t)lim) k = (size_t)lim > sent ? (size_t)lim - sent : 0;
 			c->send(e.wire.data()+sent,k); sent += k; simk::trace_mix(0xC11E00 + k);
+			if(segi >= 1 && segi-1 < e.seg_delay_ms.size() && e.seg_delay_ms[segi-1] > 0 && sent < e.wire.size()){ int64_t d = e.seg_delay_ms[segi-1]*1000LL; hold_until = simk::now_us() + d; if(deadline >= 0) deadline += d; n_pauses++; }
 			if(sent == e.wire.size() && e.t_sent < 0){ e.t_sent = simk::now_us();
 				if(!e.well_formed){
 					if(e.after == "close"){ finish_all(true); return; }
@@ -382,6 +385,8 @@ struct E1 : Engine {
 				J fl = J::obj(); J pc = J::arr(); int npc = r.below(5); for(int k=0;k<npc;k++) pc.push((int)(1 + r.below(r.below(2) ? 8 : 400))); fl["params_chunks"] = pc; J sc2 = J::arr(); int nsc = r.below(5); for(int k=0;k<nsc;k++) sc2.push((int)(1 + r.below(r.below(2) ? 16 : 70000))); fl["stdin_chunks"] = sc2;
 				J pd = J::arr(); int npd = r.below(6); for(int k=0;k<npd;k++) pd.push((int)r.below(r.below(2) ? 8 : 256)); fl["paddings"] = pd; fl["request_id"] = 1 + (int)r.below(r.below(2) ? 3 : 65535); e["fcgi"] = fl;
 				e["seg"] = gen_segs(r,600);
+				// a slow peer: the head of the request trickles in over more than http.timeout, every pause well below it (an inactivity time-out must not fire)
+				if(r.below(12) == 0){ J sg = J::arr(), dl = J::arr(); int n = 4 + (int)r.below(5); int T = (int)cfg.geti("http_timeout",10); for(int k=0;k<n;k++){ sg.push(5 + (int)r.below(40)); dl.push((int)(T * (200 + (int)r.below(250)))); } e["seg"] = sg; e["seg_delay_ms"] = dl; }
 				if(bad_conn && i == nreq-1){ e["mut"] = gen_mutation(r,proto); if(prop == "C12"){ static const char *up[] = {"mp_cut","mp_cut","mp_cut","mp_no_final_boundary","mp_bad_part_header","mp_no_name","cl_bigger","cl_over_limit","truncate"}; e["mut"]["op"] = up[r.below(9)]; } if(e.gets("kind") == "writer"){ e["kind"] = "echo"; e["req"] = gen_req(r,prop,thorough,async_mount,i); } }
 				exs.push(e); }
 			c["ex"] = exs; conns.push(c); }
@@ -498,6 +503,7 @@ struct E1 : Engine {
 		const J &fl = je.get("fcgi"); for(size_t i=0;i<fl.get("params_chunks").size();i++) e.fl.params_chunks.push_back((int)fl.get("params_chunks").a[i].as_int()); for(size_t i=0;i<fl.get("stdin_chunks").size();i++) e.fl.stdin_chunks.push_back((int)fl.get("stdin_chunks").a[i].as_int());
 		for(size_t i=0;i<fl.get("paddings").size();i++) e.fl.paddings.push_back((int)fl.get("paddings").a[i].as_int()); e.fl.request_id = (int)std::max<int64_t>(1,std::min<int64_t>(fl.geti("request_id",1),65535)); e.fl.keep_conn = e.keepalive;
 		const J &sg = je.get("seg"); for(size_t i=0;i<sg.size();i++) e.seg.push_back((int)sg.a[i].as_int());
+		{ const J &dl = je.get("seg_delay_ms"); for(size_t i=0;i<dl.size() && i<64;i++) e.seg_delay_ms.push_back((int)std::max<int64_t>(0,dl.a[i].as_int())); }   // capped at 0.45 x http.timeout by the caller
 		if(je.gets("kind") == "writer"){
 			e.is_writer = true; e.script = je.gets("script"); e.salt = (uint64_t)je.geti("salt"); e.accept_gzip = je.geti("gzip"); e.abort_after = je.has("abort_after") ? (int)std::max<int64_t>(0,je.geti("abort_after")) : -1;
 			Req r; r.method = "GET"; r.script = async_mount ? "/a" : "/s"; r.path = "/writer"; r.has_query = true; r.query = "s=" + e.script + "&salt=" + std::to_string(e.salt); if(!je.gets("cache").empty()) r.query += "&cache=" + je.gets("cache");
@@ -554,7 +560,7 @@ struct E1 : Engine {
 				for(size_t ci=0;ci<conns.size() && ci<8;ci++){ const J &jc = conns.a[ci]; auto cl = std::unique_ptr<Client>(new Client); cl->proto = (int)(((jc.geti("proto") % 3) + 3) % 3); cl->addr = cl->proto == 0 ? "tcp:8080" : cl->proto == 1 ? "tcp:8081" : "tcp:8082";
 					cl->cap_to_server = (size_t)std::max<int64_t>(1,std::min<int64_t>(jc.geti("cap_to_server",4096),1<<20)); cl->cap_to_client = (size_t)std::max<int64_t>(1,std::min<int64_t>(jc.geti("cap_to_client",4096),1<<20));
 					const J &rp = jc.get("read_pace"); for(size_t i=0;i<rp.size();i++) cl->read_pace.push_back((int)rp.a[i].as_int()); cl->start_delay_us = (int)std::max<int64_t>(0,std::min<int64_t>(jc.geti("start_delay_us"),10000000)); cl->t_created = simk::now_us(); cl->rng.seed(sp.fault_seed + ci);
-					const J &exs = jc.get("ex"); for(size_t i=0;i<exs.size() && i<6;i++){ cl->ex.emplace_back(); build_exchange(exs.a[i],jc,cl->ex.back(),cl->proto); }
+					const J &exs = jc.get("ex"); for(size_t i=0;i<exs.size() && i<6;i++){ cl->ex.emplace_back(); build_exchange(exs.a[i],jc,cl->ex.back(),cl->proto); for(auto &d:cl->ex.back().seg_delay_ms) d = (int)std::min<int64_t>(d,std::max<int64_t>(1,cfg.geti("http_timeout",10))*450); }
 					cl->bad_wait_us = (v.get<int>("http.timeout") + 6) * 1000000LL;
 					for(auto &e:cl->ex) if(!e.well_formed && cl->proto != 0 && e.after == "wait") e.after = "halfclose";
 					if(cl->ex.empty()) continue;
@@ -667,6 +673,7 @@ struct E1 : Engine {
 		if(res.ok && leaked) res.fail("descriptor-leak",std::to_string(leaked) + " simulated descriptors still open after the service was destroyed");
 		if(res.ok && !aw.exception.empty()) res.fail("exception-escaped",aw.exception);
 		res.counters["raw_mode_responses"] = n_raw; res.counters["client_aborts_mid_response"] = n_aborted; res.counters["filter_on_error_calls"] = n_on_error; res.counters["content_filter_requests"] = n_filtered; res.counters["filters_installed"] = aw.filters_installed; res.counters["over_limit_413"] = n_over_limit; res.counters["gzip_announced_empty_body"] = n_gzip_empty; res.counters["malformed_exchanges"] = n_bad; res.counters["malformed_refused_as_required"] = n_bad_refused; res.counters["page_cache_hits"] = n_cache_hits; res.counters["exchanges"] = n_ex; res.counters["multi_segment_requests"] = n_multi_seg; res.counters["requests_with_body"] = n_body; res.counters["keepalive_followups"] = n_keepalive_followups; res.counters["writer_responses"] = n_writer; res.counters["gzip_responses"] = n_gzip; res.counters["chunked_responses"] = n_chunked;
+		{ long long np = 0; for(auto &cl:clients) np += cl->n_pauses; res.counters["slow_peer_pauses"] = np; }
 		res.counters["disk_faults_injected"] = (long long)st.stdio_fail; res.counters["upload_spill_stdio_calls"] = (long long)st.stdio_ops; res.counters["uploads_refused_after_disk_fault"] = n_disk_refused;
 		res.counters["steps"] = (long long)st.steps; res.counters["switches"] = (long long)st.switches; res.counters["short_reads"] = (long long)st.short_reads; res.counters["short_writes"] = (long long)st.short_writes; res.counters["eagain"] = (long long)(st.eagain_r + st.eagain_w);
 		res.counters["eintr"] = (long long)st.eintr; res.counters["spurious_wakeups"] = (long long)st.spurious; res.counters["accepts"] = (long long)st.accepts; res.counters["bytes_to_server"] = (long long)st.bytes_rx; res.counters["bytes_to_client"] = (long long)st.bytes_tx;
